@@ -421,9 +421,10 @@ def _replay_xproc(job, inputs, notes):
 def jobs(tier, seed):
     q = tier == "quick"
     out = []
-    kw = {"gen_dfs": [{}, dict(accessible_cells=5, max_tree_depth=4), dict(do_forks=False), dict(randomized_stack=True)],
-          "gen_prim": [{}, dict(accessible_cells=6)], "gen_wilson": [{}], "gen_percolation": [dict(p=0.5), dict(p=0.3, start_coord=[0, 0])],
-          "gen_dfs_percolation": [dict(p=0.2), dict(p=0.4, accessible_cells=5)]}
+    # generator arguments incl. the proportional (float) forms of accessible_cells / max_tree_depth and a start cell
+    kw = {"gen_dfs": [{}, dict(accessible_cells=5, max_tree_depth=4), dict(do_forks=False), dict(randomized_stack=True), dict(accessible_cells=0.5, max_tree_depth=0.6, start_coord=[1, 1])],
+          "gen_prim": [{}, dict(accessible_cells=6), dict(accessible_cells=1.0, max_tree_depth=0.5)], "gen_wilson": [{}], "gen_percolation": [dict(p=0.5), dict(p=0.3, start_coord=[0, 0])],
+          "gen_dfs_percolation": [dict(p=0.2), dict(p=0.4, accessible_cells=5), dict(p=0.4, accessible_cells=0.75, max_tree_depth=0.5)]}
     eps = [{}, dict(deadend_start=True, endpoints_not_equal=True), dict(allowed_start=[[0, 0], [1, 1]], allowed_end=[[2, 2], [1, 0]]),
            # every endpoint option spelled out, defaults included (a key that is present must still be present afterwards)
            dict(except_when_invalid=True, deadend_start=False, deadend_end=True, endpoints_not_equal=False, allowed_start=[[0, 0], [0, 1], [1, 1]], allowed_end=None)]
